@@ -43,15 +43,20 @@ RowDef(i) ==
     [] i = 10 -> MkRow(Big2(222400000, 1, 9, 7), Big2(210000000, 999999999, 9, 19), U18(2000000), W1, P2,
                        TF(U18(526315), U18(1210527), U18(263157), Zero), Iv1, Gp1)
 
-NRows == IF Level = 1 THEN 6 ELSE 10
-RowTbl == [i \in 1 .. NRows |-> RowDef(i)]          \* constant: evaluated once by TLC
-Row(i) == RowTbl[i]
-Succ(r) == (r % NRows) + 1
+(* Level 3 (cross-market legs C01/C03/C04): rows whose glp_price column equals aumInUsdg / supply exactly (recorded data has
+   this; only then is "frozen market: no value creation" a property of the code and not of the data): rows 11-15 are rows 1-5
+   with supply 2 000 000 GLP, aum 1.9e36 and glp_price 0.95; rows 8 and 9 already are consistent (3 and 0.2).             *)
+RowIds == IF Level = 1 THEN 1 .. 6 ELSE IF Level = 2 THEN 1 .. 10 ELSE {8, 9, 11, 12, 13, 14, 15}
+RowTbl == [i \in RowIds |-> IF i <= 10 THEN RowDef(i)
+                            ELSE [RowDef(i - 10) EXCEPT !.glp = U18(2000000), !.aum = Big(19, 35), !.glpPrice = Dc(95, 2)]]
+Row(i) == RowTbl[i]          \* RowTbl is constant: evaluated once by TLC
+MinOf(S) == CHOOSE x \in S : \A y \in S : x <= y
+Succ(r) == LET up == {x \in RowIds : x > r} IN IF up = {} THEN MinOf(RowIds) ELSE MinOf(up)
 
-Active(i) == IF Level > 1 THEN Tokens
-             ELSE CASE i = 1 -> {"weth", "wavax"} [] i = 3 -> {"weth", "mim"} [] OTHER -> {"weth", "usdc"}
+Active(i) == IF Level = 2 THEN Tokens
+             ELSE CASE i \in {1, 11, 9} -> {"weth", "wavax"} [] i \in {3, 13} -> {"weth", "mim"} [] OTHER -> {"weth", "usdc"}
 
-W0 == TF(QI(1000), QI(1000000), QI(20000), QI(500))
+W0 == TF(QI(1000), QI(1000000), QI(20000), IF Level = 3 THEN Zero ELSE QI(500))   \* Level 3: no mim in the wallet at all
 
 BuyAlpha(t) == CASE t = "weth"  -> {Dc2(455889485, 162217, 9, 18), QI(1), QI(100)}
                  [] t = "usdc"  -> {Dc(1, 2), QI(1000), QI(250000)}
@@ -60,39 +65,49 @@ BuyAlpha(t) == CASE t = "weth"  -> {Dc2(455889485, 162217, 9, 18), QI(1), QI(100
 SellAlpha == {Dc(1, 6), QI(1), QI(100)}
 
 Events(s) ==
-  IF s.row = 0 THEN {[op |-> "bar", row |-> r] : r \in 1 .. NRows}
+  IF s.row = 0 THEN {[op |-> "bar", row |-> r] : r \in RowIds}
   ELSE {[op |-> "bar", row |-> Succ(s.row)]}
        \cup UNION {{[op |-> "buy", tok |-> t, amt |-> a] : a \in BuyAlpha(t)} : t \in Active(s.row)}
        \cup {[op |-> "buy", tok |-> t, amt |-> QMul(QI(3), s.w[t])] : t \in {u \in Active(s.row) : s.w[u] # Zero}}
        \cup {[op |-> "sell", tok |-> t, all |-> FALSE, amt |-> a] : t \in Active(s.row), a \in SellAlpha}
        \cup {[op |-> "sell", tok |-> t, all |-> TRUE, amt |-> Zero] : t \in Active(s.row)}
        \cup (IF s.glp = Zero THEN {} ELSE {[op |-> "sell", tok |-> t, all |-> FALSE, amt |-> QMul(QI(3), s.glp)] : t \in Active(s.row)})
+       \cup (IF Level = 3 THEN {[op |-> "buy", tok |-> "dai", amt |-> QI(1)], [op |-> "sell", tok |-> "dai", all |-> TRUE, amt |-> Zero]}
+             ELSE {})          \* a token without pool data
 
 Init == /\ st = InitSt(W0)
-        /\ last = [ev |-> [op |-> "init"], out |-> "ok", res |-> NoRes, net |-> Zero, rowdata |-> <<>>]
+        /\ last = [ev |-> [op |-> "init"], out |-> "ok", res |-> NoRes, net |-> Zero, acct |-> <<>>, rowdata |-> <<>>]
 
 Next == \E ev \in Events(st) :
           LET r == Step(st, ev, Row) IN
           /\ st' = r.st
           /\ last' = [ev |-> ev, out |-> r.out, res |-> r.res, net |-> NetValue(r.st, Row(r.st.row)),
+                      acct |-> IF Level = 3 THEN AccountView(r.st, Row(r.st.row)) ELSE <<>>,
                       rowdata |-> IF ev.op = "bar" THEN Row(ev.row) ELSE <<>>]
 
 Spec == Init /\ [][Next]_vars
 Bound == st.n <= Depth
 
-Traded == last.ev.op \in {"buy", "sell"} /\ last.out = "ok"
+Known == last.ev.op \in {"buy", "sell"} /\ last.ev.tok \in Tokens
+Traded == Known /\ last.out = "ok"
 
 Inv_C17_FeeBounds     == Traded => (FeeInBounds(last.res.fee) /\ FeeInBounds(last.res.feeVault))
 Inv_C17_FeeNearVault  == Traded => FeeNearVault(last.res.fee, last.res.feeVault)
 Inv_C17_NonNegShares  == QGe(st.glp, Zero) /\ \A t \in Tokens : QGe(st.w[t], Zero)
-Inv_C17_RoundTrip     == last.ev.op = "buy" => RoundTripHolds(Row(st.row), last.ev.tok, last.ev.amt)
-Inv_C17_MintValue     == last.ev.op = "buy" => MintValueHolds(Row(st.row), last.ev.tok, last.ev.amt)
-Inv_C17_RedeemValue   == (last.ev.op = "sell" /\ ~last.ev.all) => RedeemValueHolds(Row(st.row), last.ev.tok, last.ev.amt)
+Inv_C17_RoundTrip     == (Known /\ last.ev.op = "buy") => RoundTripHolds(Row(st.row), last.ev.tok, last.ev.amt)
+Inv_C17_MintValue     == (Known /\ last.ev.op = "buy") => MintValueHolds(Row(st.row), last.ev.tok, last.ev.amt)
+Inv_C17_RedeemValue   == (Known /\ last.ev.op = "sell" /\ ~last.ev.all) => RedeemValueHolds(Row(st.row), last.ev.tok, last.ev.amt)
 Inv_C17_SimNearContract ==
-     /\ last.ev.op = "buy" => SimNearContractMint(Row(st.row), last.ev.tok, last.ev.amt)
-     /\ (last.ev.op = "sell" /\ ~last.ev.all) => SimNearContractRedeem(Row(st.row), last.ev.tok, last.ev.amt)
+     /\ (Known /\ last.ev.op = "buy") => SimNearContractMint(Row(st.row), last.ev.tok, last.ev.amt)
+     /\ (Known /\ last.ev.op = "sell" /\ ~last.ev.all) => SimNearContractRedeem(Row(st.row), last.ev.tok, last.ev.amt)
 (* an accepted sale never exceeded the holding: with glp' = glp - g this is Inv_C17_NonNegShares *)
 
 (* C04 flavour (owned by C04, checked here for the DEV_MutateBeforeDebit switch) *)
 Prop_RejectLeavesState == [][last'.out = "reject" => (st'.w = st.w /\ st'.glp = st.glp /\ st'.reward = st.reward)]_vars
+
+(* C03 (frozen market): within a bar no call, accepted or rejected, raises wallet x prices + market value by more than the
+   wallet dust of the balance it debits (meaningful on the Level 3 rows, whose glp_price equals aumInUsdg / supply)          *)
+Prop_C03_NoValueCreation ==
+  [][(st.row # 0 /\ last'.ev.op # "bar") =>
+        QLe(AccountUsd(st', Row(st.row)), QAdd(AccountUsd(st, Row(st.row)), DustAllowUsd(st, last'.ev, Row(st.row))))]_vars
 =============================================================================
